@@ -44,10 +44,12 @@ def _spec(draw, tier):
     spec['panel']['dup_rows'] = [[draw(st.integers(0, 5)), draw(st.integers(0, 29)), draw(st.sampled_from([8, 64, 512]))]
                                  for _ in range(draw(st.integers(1, 3)))]
     spec['panel']['missing'] = []
+  if not spec['panel']['id_int'] and draw(st.integers(0, 4)) == 0:
+    spec['panel']['orphan_rows'] = [[draw(st.integers(0, 29)), draw(st.integers(0, 500))] for _ in range(draw(st.integers(1, 3)))]
   spec['transform'] = {
       'perm_seed': draw(st.integers(1, 10 ** 6)) if draw(st.booleans()) else None,
       'shift': draw(st.sampled_from([0, 0, 1, -1, 7, -7, 365, -400, 3])),
-      'id_flip': draw(st.booleans()),
+      'id_flip': draw(st.booleans()) and not spec['panel'].get('orphan_rows'),
       'rename': draw(st.booleans()),
       'k': draw(st.sampled_from([0, 0, 1, -1, 3, -3, 8, -8, 5, -20, 20, -45, 45, -33, 30])),
       'row_labels': draw(st.sampled_from([None, 'kept', 'gaps', 'repeated'])),
